@@ -210,7 +210,9 @@ FlatResults(s, o) == ResultList(s.rs, o.name, o.group, o.as).flat
 -----------------------------------------------------------------------------
 (* The bounded grammar *)
 
-NoOpts == [name |-> "", group |-> "", as |-> ""]
+\* loc: LocationForPC with a program counter inside no function (0, 1) or a real one; cb: a
+\* provider callback is attached.  Neither changes what is accepted or what is registered.
+NoOpts == [name |-> "", group |-> "", as |-> "", loc |-> "", cb |-> FALSE]
 
 Fld(x, t, n, op, g) == [x |-> x, ty |-> t, name |-> n, opt |-> op, grp |-> g]
 
@@ -245,7 +247,7 @@ ResultItems ==
   \cup {Item("out", "", <<f, g>>, "") : f \in FieldsR2, g \in FieldsR2}
   \cup {Item("out", "", <<>>, "")}
 
-OptSet == {[name |-> n, group |-> g, as |-> a] :
+OptSet == {[name |-> n, group |-> g, as |-> a, loc |-> "", cb |-> FALSE] :
              n \in {"", "n", "a`b"}, g \in {"", "g", "g,flatten", "g,soft", ",flatten", "g,bogus", "a`b"},
              a \in {"", "I0", "IX", "I0,I0", "nil", "int", "pT0"}}
 
@@ -267,10 +269,15 @@ CasesOpts    == {[s |-> Fn(<<>>, FALSE, <<r>>), o |-> o] :
                     r \in {Plain("T0"), Plain("sT0"), Plain("NS"), Plain("I0"), Plain("OUT1"), Plain("OUT2"),
                            Item("out", "", <<Fld(TRUE, "T0", "n", "", "")>>, "")},
                     o \in OptSet}
+CasesLoc     == {[s |-> Fn(ps, FALSE, <<r>>), o |-> [NoOpts EXCEPT !.loc = l, !.cb = c]] :
+                    ps \in {<<>>, <<Plain("T5")>>, <<Plain("T1")>>},
+                    r \in {Plain("T0"), Plain("sT0"), Item("out", "", <<Fld(TRUE, "T0", "", "", "g")>>, "")},
+                    l \in {"", "pc0", "pc1", "real"}, c \in BOOLEAN}
 CasesNonFunc == {[s |-> NonFunc(k), o |-> NoOpts] : k \in {"nil", "int", "struct", "ptrstruct", "nilfunc"}}
                 \cup {[s |-> Fn(<<>>, FALSE, <<>>), o |-> NoOpts], [s |-> Fn(<<>>, FALSE, <<Plain("err")>>), o |-> NoOpts]}
 
 AllCases == CasesParams \cup CasesParams2 \cup CasesResults \cup CasesResults2 \cup CasesOpts \cup CasesNonFunc
+            \cup CasesLoc
 
 -----------------------------------------------------------------------------
 (* Enumeration as a trivial state machine: one initial state per case *)
